@@ -99,6 +99,52 @@ Section Birthday.
     destruct (Z_le_gt_dec h j) as [|Hgt]; [assumption|].
     pose proof (Hmono j h ltac:(lia) ltac:(lia) ltac:(lia)). lia.
   Qed.
+  (** With the production entry (syncWithChain stores the located block as
+      synced-to and recovery scans from the next height) the first scanned
+      block is [h + 1]: it is still not later than any block (genesis apart,
+      which cannot pay a wallet) stamped later than birthday + 2h. *)
+  Lemma first_scanned_not_late ts bday h :
+    monotone_ts ts ->
+    locate_birthday ts bday = Some h ->
+    forall j, 1 <= j < Z.of_nat (length ts) ->
+      bday + birthday_block_delta < ts_at ts j -> h + 1 <= j.
+  Proof.
+    intros Hmono H j Hj Hlate.
+    destruct (locate_birthday_bound ts bday h H) as [Hr [H0|Hb]]; [lia|].
+    destruct (Z_lt_ge_dec h j) as [|Hge]; [lia|].
+    pose proof (Hmono j h ltac:(lia) ltac:(lia) ltac:(lia)). lia.
+  Qed.
+
+  Lemma nth_firstn_lt {A} (d : A) : forall n i (l : list A), (i < n)%nat -> nth i (firstn n l) d = nth i l d.
+  Proof.
+    induction n as [|n IH]; intros i l Hi; [lia|].
+    destruct l as [|x l]; [destruct i; reflexivity|].
+    destruct i as [|i]; [reflexivity|]. simpl. apply IH. lia.
+  Qed.
+
+  Lemma monotone_firstn n ts : monotone_ts ts -> monotone_ts (firstn n ts).
+  Proof.
+    intros Hm i j Hi Hij Hj. rewrite firstn_length in Hj. unfold ts_at.
+    rewrite !nth_firstn_lt by lia. apply Hm; lia.
+  Qed.
+
+  (** The same for a search run when the backend's chain ended at height
+      [c0] and grew afterwards: [ts] are the timestamps of the final chain. *)
+  Lemma first_scanned_not_late_truncated ts bday (c0 : nat) h :
+    monotone_ts ts ->
+    locate_birthday (firstn (S c0) ts) bday = Some h ->
+    h <= Z.of_nat c0 /\
+    forall j, 1 <= j < Z.of_nat (length ts) ->
+      bday + birthday_block_delta < ts_at ts j -> h + 1 <= j.
+  Proof.
+    intros Hmono H.
+    destruct (locate_birthday_bound _ bday h H) as [Hr _]. rewrite firstn_length in Hr.
+    split; [lia|]. intros j Hj Hlate.
+    destruct (Z_lt_ge_dec (Z.of_nat c0) j) as [|Hle]; [lia|].
+    apply (first_scanned_not_late (firstn (S c0) ts) bday h (monotone_firstn _ _ Hmono) H).
+    - rewrite firstn_length. lia.
+    - unfold ts_at. rewrite nth_firstn_lt by lia. exact Hlate.
+  Qed.
 End Birthday.
 
 (** * Part 2: small facts about the list-backed sets *)
@@ -2182,4 +2228,352 @@ Section Branch.
     - intros x k i Hx Hi. apply (Hpaid x k i Hx Hi).
   Qed.
 
+  (** * Part 11: the production entry.  syncWithChain on a wallet without a
+      stored birthday block sets synced-to to the located block [b] and runs
+      recovery with birthday block [b]; every later start runs recovery with
+      the stored block from the stored synced-to height. *)
+
+  (** ** heights of the blocks one run looks at *)
+  Lemma number_from_ge {A} (l : list A) : forall a x, In x (number_from a l) -> a <= fst x.
+  Proof.
+    induction l as [|y l IH]; intros a x Hx; simpl in Hx; [destruct Hx|].
+    destruct Hx as [<-|Hx]; [simpl; lia|]. specialize (IH _ _ Hx). lia.
+  Qed.
+
+  Lemma number_from_lt {A} (l : list A) : forall a x,
+    In x (number_from a l) -> fst x < a + N.of_nat (length l).
+  Proof.
+    induction l as [|y l IH]; intros a x Hx; simpl in Hx; [destruct Hx|].
+    destruct Hx as [<-|Hx]; [simpl; lia|]. specialize (IH _ _ Hx). simpl length. lia.
+  Qed.
+
+  Lemma number_from_skipn {A} : forall n (l : list A) a,
+    skipn n (number_from a l) = number_from (a + N.of_nat n) (skipn n l).
+  Proof.
+    induction n as [|n IH]; intros l a.
+    - simpl. rewrite N.add_0_r. reflexivity.
+    - destruct l as [|y l]; [reflexivity|]. cbn [number_from skipn]. rewrite IH. f_equal. lia.
+  Qed.
+
+  Lemma number_from_firstn {A} : forall n (l : list A) a,
+    firstn n (number_from a l) = number_from a (firstn n l).
+  Proof.
+    induction n as [|n IH]; intros l a; [reflexivity|].
+    destruct l as [|y l]; [reflexivity|]. cbn [number_from firstn]. rewrite IH. reflexivity.
+  Qed.
+
+  Lemma In_firstn_In {A} n (l : list A) x : In x (firstn n l) -> In x l.
+  Proof. intros H. rewrite <- (firstn_skipn n l). apply in_or_app. left. exact H. Qed.
+
+  Lemma hts_gt (chain : list block) synced best x :
+    In x (heights_to_scan chain synced best) -> synced < fst x.
+  Proof.
+    unfold heights_to_scan. rewrite skipn_firstn_comm. intros H. apply In_firstn_In in H.
+    rewrite number_from_skipn in H. apply number_from_ge in H. lia.
+  Qed.
+
+  (** ** the birthday height does not matter once synced-to has reached it *)
+  Lemma recovery_loop_bday best bs b1 b2 : forall hs batch st,
+    (forall x, In x hs -> b1 <= fst x /\ b2 <= fst x) ->
+    recovery_loop' hs best bs b1 batch st = recovery_loop' hs best bs b2 batch st.
+  Proof.
+    unfold recovery_loop'.
+    induction hs as [|[h blk] rest IH]; intros batch st H; [reflexivity|].
+    cbn [recovery_loop].
+    destruct (H (h, blk) (or_introl eq_refl)) as [H1 H2]. simpl in H1, H2.
+    rewrite (proj2 (N.leb_le b1 h) H1), (proj2 (N.leb_le b2 h) H2).
+    destruct (Nat.eqb (length (batch ++ [(h, blk)])) bs || (h =? best));
+      apply IH; intros x Hx; apply H; right; exact Hx.
+  Qed.
+
+  Lemma recovery_bday W bs b1 b2 best chain p :
+    b1 <= p_synced p + 1 -> b2 <= p_synced p + 1 ->
+    recovery' W bs b1 best chain p = recovery' W bs b2 best chain p.
+  Proof.
+    intros H1 H2. unfold recovery', recovery. f_equal.
+    apply (recovery_loop_bday best bs b1 b2). intros x Hx. apply hts_gt in Hx. lia.
+  Qed.
+
+  Lemma runs_bday W bs b (chain : list block) : forall cuts p,
+    batch_ok W [] (scanned (b + 1) (number_from 1 chain)) ->
+    (forall c, In c cuts -> c <= N.of_nat (length chain)) ->
+    pinv p (scanned (b + 1) (firstn (N.to_nat (p_synced p)) (number_from 1 chain))) ->
+    p_synced p <= N.of_nat (length chain) ->
+    b <= p_synced p ->
+    recovery_runs' W bs b cuts chain p = recovery_runs' W bs (b + 1) cuts chain p.
+  Proof.
+    induction cuts as [|c cuts IH]; intros p Hok Hc Hp Hm Hb; [reflexivity|].
+    assert (E : forall bd, recovery_runs' W bs bd (c :: cuts) chain p =
+                           recovery_runs' W bs bd cuts chain (recovery' W bs bd c chain p)) by reflexivity.
+    rewrite !E. rewrite (recovery_bday W bs b (b + 1) c chain p) by lia.
+    destruct (run_step W bs (b + 1) chain p c Hok Hp Hm) as (S1 & S2).
+    { apply Hc. left. reflexivity. }
+    apply IH.
+    - exact Hok.
+    - intros c' Hc'. apply Hc. right. exact Hc'.
+    - exact S1.
+    - rewrite S2. pose proof (Hc c (or_introl eq_refl)). lia.
+    - rewrite S2. lia.
+  Qed.
+
+  (** ** the blocks after height [b], in order *)
+  Definition blocks_after (b : N) (chain : list block) : list (N * block) :=
+    skipn (N.to_nat b) (number_from 1 chain).
+
+  (** ... are the chain without its first [b] blocks, numbered from [b + 1] *)
+  Lemma blocks_after_numbered b (chain : list block) :
+    blocks_after b chain = number_from (b + 1) (skipn (N.to_nat b) chain).
+  Proof. unfold blocks_after. rewrite number_from_skipn. f_equal. lia. Qed.
+
+  Lemma filter_none {A} (f : A -> bool) l : (forall x, In x l -> f x = false) -> filter f l = [].
+  Proof.
+    induction l as [|x l IH]; simpl; intros H; [reflexivity|].
+    rewrite (H x (or_introl eq_refl)). apply IH. intros y Hy. apply H. right. exact Hy.
+  Qed.
+
+  Lemma scanned_before b (chain : list block) n :
+    (n <= N.to_nat b)%nat -> scanned (b + 1) (firstn n (number_from 1 chain)) = [].
+  Proof.
+    intros Hn. unfold scanned. apply filter_none. intros x Hx.
+    rewrite number_from_firstn in Hx. apply number_from_lt in Hx.
+    pose proof (firstn_le_length n chain). apply N.leb_gt. lia.
+  Qed.
+
+  Lemma scanned_after b (chain : list block) : scanned_chain (b + 1) chain = blocks_after b chain.
+  Proof.
+    unfold scanned_chain, blocks_after.
+    rewrite <- (firstn_skipn (N.to_nat b) (number_from 1 chain)) at 1.
+    rewrite scanned_app, scanned_before by lia. simpl. unfold scanned. apply filter_all_true.
+    intros x Hx. rewrite number_from_skipn in Hx. apply number_from_ge in Hx. apply N.leb_le. lia.
+  Qed.
+
+  (** ** what the invariant says at the end, in ledger form *)
+  Lemma pinv_conclusions W all p :
+    within_window W all -> pinv p all ->
+    (forall x k, In x all -> In k (block_keys (snd x)) -> In k (p_used p) /\ known' p k = true) /\
+    (p_txs p, p_unspent p) = ledger (txs_of all) /\
+    (forall k, In (fst k) scopes -> get_next k p = found_before k all) /\
+    (forall x k i, In x all -> In i (paid_on k (snd x)) -> i < get_next k p).
+  Proof.
+    intros Hw (Hnext & Hused & Hled).
+    assert (Hpaid : forall x k i, In x all -> In i (paid_on k (snd x)) ->
+                      In (fst k) scopes /\ valid k i = true /\ i < get_next k p).
+    { intros x k i Hx Hi. destruct (in_split _ _ Hx) as (l1 & l2 & E).
+      destruct (Hw l1 x l2 E k i Hi) as (Hs1 & Hv & _).
+      split; [exact Hs1|]. split; [exact Hv|]. rewrite (Hnext k Hs1). apply (found_before_gt k all x i Hx Hi). }
+    split; [|split; [exact Hled|split; [exact Hnext|]]].
+    - intros x [[s b] i] Hx Hk. split.
+      + apply Hused. apply in_flat_map. exists x. split; assumption.
+      + assert (Hi : In i (paid_on (s, b) (snd x))) by (unfold paid_on; apply found_indices_In; exact Hk).
+        destruct (Hpaid x (s, b) i Hx Hi) as (Hs1 & Hv & Hlt). simpl in Hs1.
+        unfold known', known. apply andb_true_iff. split; [apply andb_true_iff; split|].
+        * apply memN_In. exact Hs1.
+        * apply N.ltb_lt. exact Hlt.
+        * exact Hv.
+    - intros x k i Hx Hi. apply (Hpaid x k i Hx Hi).
+  Qed.
+
+  (** ** the start-ups *)
+  Definition startup' := startup invalid_child inv_bound scopes.
+  Definition startups' := startups invalid_child inv_bound scopes.
+
+  Lemma startups_cons W bs ts birthday c cuts chain ws :
+    startups' W bs ts birthday (c :: cuts) chain ws =
+    match startup' W bs ts birthday c chain ws with
+    | Some s => startups' W bs ts birthday cuts chain s
+    | None => None
+    end.
+  Proof.
+    unfold startups', startups, startup'. cbn [fold_left].
+    destruct (startup invalid_child inv_bound scopes W bs ts birthday c chain ws); [reflexivity|].
+    induction cuts as [|c' cuts IH]; [reflexivity|exact IH].
+  Qed.
+
+  (** with a stored birthday block every start is a plain recovery run *)
+  Lemma startups_stored W bs ts birthday (chain : list block) b : forall cuts p,
+    startups' W bs ts birthday cuts chain {| w_bblock := Some b; w_p := p |} =
+    Some {| w_bblock := Some b; w_p := recovery_runs' W bs b cuts chain p |}.
+  Proof.
+    induction cuts as [|c cuts IH]; intros p; [reflexivity|].
+    rewrite startups_cons. unfold startup', startup. cbn [w_bblock w_p]. rewrite IH. reflexivity.
+  Qed.
+
+  (** The production entry: a wallet restored from seed (no birthday block
+      stored, synced-to at genesis) started against a chain that ends at
+      height [c0], on which the search returns the block at height [b], and
+      started again whenever the chain has grown to the next height of
+      [cuts], scans exactly the blocks after [b] ([pinv] relates the state to
+      the ledger of exactly that list) and ends synced to the tip. *)
+  Lemma startups_inv W bs ts birthday (chain : list block) c0 cuts hz :
+    locate_birthday (firstn (S (N.to_nat c0)) ts) birthday = Some hz ->
+    let b := Z.to_N hz in
+    let all := blocks_after b chain in
+    within_window W all -> chain_wf all ->
+    (forall c, In c (c0 :: cuts) -> c <= N.of_nat (length chain)) ->
+    In (N.of_nat (length chain)) (c0 :: cuts) ->
+    exists p,
+      startups' W bs ts birthday (c0 :: cuts) chain fresh_wstate =
+        Some {| w_bblock := Some b; w_p := p |} /\
+      b <= c0 /\ pinv p all /\ p_synced p = N.of_nat (length chain).
+  Proof.
+    intros Hloc b all Hw Hwf Hc Hlast.
+    assert (Hb : b <= c0).
+    { destruct (locate_birthday_bound _ _ _ Hloc) as [Hr _]. rewrite firstn_length in Hr. subst b. lia. }
+    pose proof (Hc c0 (or_introl eq_refl)) as Hc0.
+    assert (Hok : batch_ok W [] (scanned (b + 1) (number_from 1 chain))).
+    { fold (scanned_chain (b + 1) chain). rewrite scanned_after. apply batch_ok_of; assumption. }
+    set (p0 := set_synced b fresh_pstate).
+    assert (Hp0 : pinv p0 (scanned (b + 1) (firstn (N.to_nat (p_synced p0)) (number_from 1 chain)))).
+    { simpl p_synced. rewrite scanned_before by lia. apply pinv_set_synced. exact pinv_fresh. }
+    exists (recovery_runs' W bs (b + 1) (c0 :: cuts) chain p0).
+    split; [|split; [exact Hb|]].
+    - rewrite startups_cons. unfold startup', startup. cbn [w_bblock w_p fresh_wstate].
+      rewrite Hloc. cbv zeta. fold b. rewrite startups_stored. do 2 f_equal.
+      unfold first_start. fold recovery'. fold p0.
+      change (recovery_runs' W bs b cuts chain (recovery' W bs b c0 chain p0))
+        with (recovery_runs' W bs b (c0 :: cuts) chain p0).
+      apply runs_bday; try assumption; simpl p_synced; lia.
+    - destruct (recovery_runs_inv W bs (b + 1) chain (c0 :: cuts) p0 Hok Hc Hp0) as (I1 & I2).
+      { simpl p_synced. lia. }
+      cbv zeta in I1, I2. simpl p_synced in I2 at 2.
+      assert (E : fold_left N.max (c0 :: cuts) b = N.of_nat (length chain)).
+      { apply N.le_antisymm; [apply fold_max_bound; [lia|exact Hc]|apply fold_max_ge; exact Hlast]. }
+      rewrite I2, E in I1. rewrite I2, E. split; [|reflexivity].
+      rewrite Nat2N.id in I1. rewrite firstn_all2 in I1 by (rewrite number_from_length; lia).
+      fold (scanned_chain (b + 1) chain) in I1. rewrite scanned_after in I1. exact I1.
+  Qed.
+
+  Theorem startups_complete W bs ts birthday (chain : list block) c0 cuts hz :
+    locate_birthday (firstn (S (N.to_nat c0)) ts) birthday = Some hz ->
+    let b := Z.to_N hz in
+    let all := blocks_after b chain in
+    within_window W all -> chain_wf all ->
+    (forall c, In c (c0 :: cuts) -> c <= N.of_nat (length chain)) ->
+    In (N.of_nat (length chain)) (c0 :: cuts) ->
+    exists p,
+      startups' W bs ts birthday (c0 :: cuts) chain fresh_wstate =
+        Some {| w_bblock := Some b; w_p := p |} /\
+      b <= c0 /\
+      (forall x k, In x all -> In k (block_keys (snd x)) -> In k (p_used p) /\ known' p k = true) /\
+      (p_txs p, p_unspent p) = ledger (txs_of all) /\
+      (forall k, In (fst k) scopes -> get_next k p = found_before k all) /\
+      (forall x k i, In x all -> In i (paid_on k (snd x)) -> i < get_next k p) /\
+      p_synced p = N.of_nat (length chain).
+  Proof.
+    intros Hloc b all Hw Hwf Hc Hlast.
+    destruct (startups_inv W bs ts birthday chain c0 cuts hz Hloc Hw Hwf Hc Hlast) as (p & E & Hb & Hp & Hs).
+    exists p. split; [exact E|]. split; [exact Hb|].
+    destruct (pinv_conclusions W all p Hw Hp) as (C1 & C2 & C3 & C4).
+    split; [exact C1|split; [exact C2|split; [exact C3|split; [exact C4|exact Hs]]]].
+  Qed.
+
+  (** ** which blocks a run hands to recoverScopedAddresses, and when
+
+      [loop_flushes] lists, for the loop of [recovery], the height at which a
+      batch is flushed together with that batch; it depends on the heights,
+      the batch size and the birthday height only.  The loop is the fold of
+      "recover the batch, then set synced-to" over that list. *)
+  Fixpoint loop_flushes (hs : list (N * block)) (best : N) (bs : nat) (bday : N)
+      (batch : list (N * block)) : list (N * list (N * block)) :=
+    match hs with
+    | [] => []
+    | (h, blk) :: rest =>
+        let batch1 := if bday <=? h then batch ++ [(h, blk)] else batch in
+        if Nat.eqb (length batch1) bs || (h =? best)
+        then (h, batch1) :: loop_flushes rest best bs bday []
+        else loop_flushes rest best bs bday batch1
+    end.
+
+  Definition flush (st : rstate * pstate) (f : N * list (N * block)) : rstate * pstate :=
+    let st1 := recover_batch' st (snd f) in (fst st1, set_synced (fst f) (snd st1)).
+
+  Lemma recovery_loop_flushes best bs bday : forall hs batch st,
+    recovery_loop' hs best bs bday batch st = fold_left flush (loop_flushes hs best bs bday batch) st.
+  Proof.
+    unfold recovery_loop'.
+    induction hs as [|[h blk] rest IH]; intros batch st; [reflexivity|].
+    cbn [recovery_loop loop_flushes].
+    destruct (Nat.eqb (length (if bday <=? h then batch ++ [(h, blk)] else batch)) bs || (h =? best)).
+    - cbn [fold_left]. rewrite IH. reflexivity.
+    - apply IH.
+  Qed.
+
+  Lemma loop_flushes_concat best bs bday : forall hs batch,
+    (hs = [] -> batch = []) -> ends_with best hs ->
+    concat (map snd (loop_flushes hs best bs bday batch)) = batch ++ scanned bday hs.
+  Proof.
+    induction hs as [|[h blk] rest IH]; intros batch Hb Hend.
+    - rewrite (Hb eq_refl). reflexivity.
+    - destruct (ends_with_cons best _ _ Hend) as (Hlast & Hend').
+      cbn [loop_flushes].
+      set (batch1 := if bday <=? h then batch ++ [(h, blk)] else batch).
+      assert (Eb : batch ++ scanned bday ((h, blk) :: rest) = batch1 ++ scanned bday rest).
+      { unfold scanned, batch1. simpl. destruct (bday <=? h); [rewrite <- app_assoc; reflexivity|reflexivity]. }
+      rewrite Eb.
+      destruct (Nat.eqb (length batch1) bs || (h =? best)) eqn:Eflush.
+      + cbn [map concat snd]. rewrite IH; [reflexivity|reflexivity|exact Hend'].
+      + apply IH; [|exact Hend'].
+        intros Er. apply orb_false_iff in Eflush. destruct Eflush as [_ Eh].
+        pose proof (Hlast Er) as Hh. simpl in Hh. rewrite Hh, N.eqb_refl in Eh. discriminate.
+  Qed.
+
+  (** One run from synced-to height [synced] >= birthday height - 1 against a
+      chain that has grown to [best]: the batches, concatenated in the order
+      they are flushed, are the blocks at heights synced+1 .. best, each once,
+      in order - whatever the batch size. *)
+  Lemma run_scans bs bday best (chain : list block) synced :
+    bday <= synced + 1 -> best <= N.of_nat (length chain) ->
+    concat (map snd (loop_flushes (heights_to_scan chain synced best) best bs bday [])) =
+    firstn (N.to_nat (best - synced)) (blocks_after synced chain).
+  Proof.
+    intros Hb Hbest.
+    assert (Ehts : heights_to_scan chain synced best =
+                   firstn (N.to_nat (best - synced)) (blocks_after synced chain)).
+    { unfold heights_to_scan, blocks_after. rewrite skipn_firstn_comm. f_equal. lia. }
+    destruct (N.le_gt_cases best synced) as [Hle|Hgt].
+    - rewrite (hts_empty chain synced best Hle). replace (best - synced) with 0 by lia. reflexivity.
+    - destruct (hts_ends chain synced best Hgt Hbest) as (He & _).
+      rewrite loop_flushes_concat; [|reflexivity|exact He]. simpl. rewrite <- Ehts.
+      unfold scanned. apply filter_all_true. intros x Hx. apply hts_gt in Hx. apply N.leb_le. lia.
+  Qed.
+
+  (** All runs: started at the heights [cuts] from synced-to height [synced]
+      (synced-to follows the maximum, [run_step]), the scanned blocks of all
+      runs, concatenated, are the blocks after [synced]. *)
+  Fixpoint runs_scanned (bs : nat) (bday : N) (cuts : list N) (chain : list block) (synced : N)
+    : list (N * block) :=
+    match cuts with
+    | [] => []
+    | c :: r =>
+        concat (map snd (loop_flushes (heights_to_scan chain synced c) c bs bday [])) ++
+        runs_scanned bs bday r chain (N.max synced c)
+    end.
+
+  Lemma skipn_plus {A} : forall m n (l : list A), skipn (n + m) l = skipn n (skipn m l).
+  Proof.
+    induction m as [|m IH]; intros n l.
+    - rewrite Nat.add_0_r. reflexivity.
+    - destruct l as [|x l].
+      + destruct n; reflexivity.
+      + rewrite Nat.add_succ_r. simpl. apply IH.
+  Qed.
+
+  Lemma runs_scanned_all bs bday (chain : list block) : forall cuts synced,
+    bday <= synced + 1 ->
+    (forall c, In c cuts -> c <= N.of_nat (length chain)) ->
+    fold_left N.max cuts synced = N.of_nat (length chain) ->
+    runs_scanned bs bday cuts chain synced = blocks_after synced chain.
+  Proof.
+    induction cuts as [|c cuts IH]; intros synced Hb Hc Hmax.
+    - simpl in Hmax. subst synced. unfold blocks_after. rewrite Nat2N.id.
+      symmetry. apply skipn_all2. rewrite number_from_length. lia.
+    - cbn [runs_scanned]. cbn [fold_left] in Hmax.
+      rewrite run_scans by (try assumption; apply Hc; left; reflexivity).
+      rewrite IH; [|lia|intros c' Hc'; apply Hc; right; exact Hc'|exact Hmax].
+      destruct (N.le_gt_cases c synced) as [Hle|Hgt].
+      + replace (c - synced) with 0 by lia. replace (N.max synced c) with synced by lia. reflexivity.
+      + replace (N.max synced c) with c by lia. unfold blocks_after.
+        replace (N.to_nat c) with (N.to_nat (c - synced) + N.to_nat synced)%nat by lia.
+        rewrite skipn_plus. apply firstn_skipn.
+  Qed.
 End Branch.
